@@ -46,6 +46,31 @@ fn expr_tt(e: &LogicalExpr, n: usize, shift: usize) -> String {
         .collect()
 }
 
+fn dimacs_line(text: &str, nv: usize) -> String {
+    let text = text.to_string();
+            let head = format!("ser kind=dimacs text={}", esc(&text));
+            let r = guarded(|| {
+                let cnf = Cnf::from_dimacs(&text);
+                let printed = cnf.to_dimacs();
+                let again = Cnf::from_dimacs(&format!("p cnf {} {}{}", std::cmp::max(1, cnf.num_vars()), cnf.clauses().len(), printed));
+                let le = guarded(|| {
+                    let e = LogicalExpr::from_dimacs(&text);
+                    expr_tt(&e, nv, 1)
+                })
+                .unwrap_or_else(|e| e);
+                format!(
+                    "cnf={} nv={} printed={} again={} same={} lett={}",
+                    print_cnf(&cnf),
+                    cnf.num_vars(),
+                    esc(&printed),
+                    print_cnf(&again),
+                    (again == cnf) as u8,
+                    le
+                )
+            });
+            format!("{} => {}", head, r.unwrap_or_else(|e| e))
+}
+
 pub fn ser_lines(rng: &mut Rng, idx: u64, maxvars: usize, maxops: usize) -> Vec<String> {
     let mut out = Vec::new();
     match idx % 4 {
@@ -104,27 +129,27 @@ pub fn ser_lines(rng: &mut Rng, idx: u64, maxvars: usize, maxops: usize) -> Vec<
                 }
                 text.push_str("0\n");
             }
-            let head = format!("ser kind=dimacs text={}", esc(&text));
-            let r = guarded(|| {
-                let cnf = Cnf::from_dimacs(&text);
-                let printed = cnf.to_dimacs();
-                let again = Cnf::from_dimacs(&format!("p cnf {} {}{}", std::cmp::max(1, cnf.num_vars()), cnf.clauses().len(), printed));
-                let le = guarded(|| {
-                    let e = LogicalExpr::from_dimacs(&text);
-                    expr_tt(&e, nv, 1)
-                })
-                .unwrap_or_else(|e| e);
-                format!(
-                    "cnf={} nv={} printed={} again={} same={} lett={}",
-                    print_cnf(&cnf),
-                    cnf.num_vars(),
-                    esc(&printed),
-                    print_cnf(&again),
-                    (again == cnf) as u8,
-                    le
-                )
-            });
-            out.push(format!("{} => {}", head, r.unwrap_or_else(|e| e)));
+            out.push(dimacs_line(&text, nv));
+            // ADDITIONAL line (drawn after everything else of the case, so the ordinary line is
+            // what it always was): the same clauses with comment lines BETWEEN clauses, whose
+            // bodies contain what a careless pre-processing step could trip over (`%`, numbers,
+            // a zero, a second problem line)
+            let bodies = ["c % end of first block", "c 1 -2 0", "c p cnf 3 3", "c 100% sure 0", "c -1 % 2 0 %", "c %"];
+            let mut text2 = String::new();
+            text2.push_str(&format!("p cnf {} {}\n", nv, raw.len()));
+            let mut inserted = 0;
+            for (i, c) in raw.iter().enumerate() {
+                if rng.chance(1, 2) || (i + 1 == raw.len() && inserted == 0 && i > 0) {
+                    text2.push_str(bodies[rng.below(bodies.len() as u64) as usize]);
+                    text2.push('\n');
+                    inserted += 1;
+                }
+                for (v, p) in c.iter() {
+                    text2.push_str(&format!("{}{} ", if *p { "" } else { "-" }, v + 1));
+                }
+                text2.push_str("0\n");
+            }
+            out.push(dimacs_line(&text2, nv));
         }
         1 => {
             let pool = ["a", "b", "c", "x1", "x10", "x2", "B", "Z", "zeta", "_k"];
